@@ -234,6 +234,34 @@ def run(ctx):
                                           mechanism="reconfiguration_rejected", monitor="driver")
                 except Exception as e:  # noqa: BLE001
                     ctx.count("in_place_herald_raised:" + type(e).__name__)
+            if dists and rng.random() < 0.12 and nph >= 1:
+                # a read that fails half-way (a loss Parameter holding 1.4) after the input was changed; the Parameter is
+                # put back to exactly its earlier value; the next read must be the distribution of the *current* input
+                # (judged by the Sampler.probability_distribution post-condition)
+                try:
+                    c2 = c.copy()
+                    lp = lw.Parameter(float(rng.uniform(0.1, 0.6)))
+                    c2.loss(int(rng.integers(c2.n_modes - len(c2._internal_modes))), lp)
+                    s2 = emu.Sampler(c2, State(occ), backend=str(rng.choice(["permanent", "slos"])))
+                    _ = s2.probability_distribution
+                    occ2 = random_state(rng, c2.input_modes, nph)
+                    s2.input_state = State(occ2)
+                    v0 = lp.get()
+                    lp.set(1.4)
+                    try:
+                        _ = s2.probability_distribution
+                    except Exception:  # noqa: BLE001
+                        ctx.bucket("read_failed_then_parameter_restored")
+                    lp.set(v0)
+                    d2 = {tuple(st): p for st, p in s2.probability_distribution.items()}
+                    fresh = {tuple(st): p for st, p in emu.Sampler(c2, State(occ2), backend=s2.backend.backend).probability_distribution.items()}
+                    if d2 != fresh:
+                        ctx.violation("after a read that failed (invalid loss Parameter, since restored) the sampler reports a "
+                                      "distribution that differs from a fresh sampler's for the same circuit and input",
+                                      case={**case, "second_input": occ2}, mechanism="stale_after_failed_read",
+                                      monitor="driver: fresh sampler")
+                except Exception as e:  # noqa: BLE001
+                    ctx.count("failed_read_sequence_raised:" + type(e).__name__)
             ctx.case((lossy, n_loss, nph, bunched, heralded, k), lossy or bunched or heralded, sample=case)
             drain_into(ctx, case)
     merge_stats(ctx)
